@@ -17,7 +17,9 @@ const maxIncludeDepth = 100
 func (v *Vue) evalInclude(ctx VueContext, node *html.Node, vars map[string]any, depth int) ([]*html.Node, error) {
 	// A component that includes itself, directly or through other files, would recurse
 	// until the stack is exhausted. Bound the inclusion chain like the layout chain.
-	if len(ctx.TemplateStack) > maxIncludeDepth {
+	// (ctx is passed by value, so the counter follows the nesting of includes only.)
+	ctx.includeDepth++
+	if ctx.includeDepth > maxIncludeDepth {
 		return nil, fmt.Errorf("include depth exceeded maximum of %d, possible circular include: %s -> %s",
 			maxIncludeDepth, ctx.FormatTemplateChain(), helpers.GetAttr(node, "include"))
 	}
